@@ -742,8 +742,8 @@ pub fn run(ctx: &Ctx) -> Report {
 /// small single-threaded workload for the Miri shards
 pub fn miri_workload(seed: u64) -> Report {
     let mut rep = Report::new("miri shard: allocator");
-    rep.merge(exhaustive::<ValueAllocator<u8>>("u8", 253, 255, 255, 3, (0, 0)));
-    rep.merge(exhaustive::<ValueAllocator<u16>>("u16", 1, 2, 65535, 3, (0, 0)));
+    rep.merge(exhaustive::<ValueAllocator<u8>>("u8", 254, 255, 255, 3, (0, 0)));
+    rep.merge(exhaustive::<ValueAllocator<u16>>("u16", 1, 2, 65535, 2, (0, 0)));
     random_seq::<ValueAllocator<u16>>("u16", 1, 65535, 65535, 80, seed, (0, 0), &mut rep);
     random_seq::<ValueAllocator<u32>>("u32", u32::MAX as u64 - 3, u32::MAX as u64, u32::MAX as u64, 80, seed ^ 1, (0, 0), &mut rep);
     pid_manager_seq(seed, 60, (0, 0), &mut rep);
